@@ -2169,6 +2169,69 @@ fn diverged_header_chain_lookups(run: &Run, dir: &str, n_variants: u64) {
 				}
 			}
 		}
+		// the other read calls of the node's API / sync code in the same state: each must come back (Ok or Err) without a panic
+		let commits: Vec<Commitment> = body.iter().flat_map(|b| b.block.outputs().iter().map(|o| o.commitment()).collect::<Vec<_>>()).collect();
+		let top = n_trunk + a_len;
+		let hh = chain.header_head().ok();
+		type Call = Box<dyn FnOnce(&Chain) -> bool + Send>;
+		let mut calls: Vec<(&'static str, Call)> = vec![];
+		for c in commits.iter().cloned() {
+			calls.push(("get_header_for_output", Box::new(move |ch: &Chain| ch.get_header_for_output(c).is_ok())));
+			calls.push(("get_merkle_proof_for_pos", Box::new(move |ch: &Chain| ch.get_merkle_proof_for_pos(c).is_ok())));
+			calls.push(("get_output_pos", Box::new(move |ch: &Chain| ch.get_output_pos(&c).is_ok())));
+		}
+		calls.push(("unspent_outputs_by_pmmr_index", Box::new(|ch: &Chain| ch.unspent_outputs_by_pmmr_index(1, 1000, None).is_ok())));
+		calls.push(("unspent_outputs_by_pmmr_index", Box::new(|ch: &Chain| ch.unspent_outputs_by_pmmr_index(3, 5, Some(11)).is_ok())));
+		for (a, b) in [(0u64, None), (1, Some(top)), (top, Some(top)), (n_trunk, Some(top + 1)), (top + 1, None)] {
+			calls.push(("block_height_range_to_pmmr_indices", Box::new(move |ch: &Chain| ch.block_height_range_to_pmmr_indices(a, b).is_ok())));
+		}
+		calls.push(("get_last_n_output", Box::new(|ch: &Chain| !ch.get_last_n_output(20).is_empty())));
+		calls.push(("get_last_n_rangeproof", Box::new(|ch: &Chain| !ch.get_last_n_rangeproof(20).is_empty())));
+		calls.push(("get_last_n_kernel", Box::new(|ch: &Chain| !ch.get_last_n_kernel(20).is_empty())));
+		calls.push(("fork_point", Box::new(|ch: &Chain| ch.fork_point().is_ok())));
+		calls.push(("check_txhashset_needed", Box::new(|ch: &Chain| ch.fork_point().and_then(|f| ch.check_txhashset_needed(&f)).is_ok())));
+		calls.push(("txhashset_archive_header", Box::new(|ch: &Chain| ch.txhashset_archive_header().is_ok())));
+		calls.push(("txhashset_archive_header_header_only", Box::new(|ch: &Chain| ch.txhashset_archive_header_header_only().is_ok())));
+		calls.push(("difficulty_iter", Box::new(|ch: &Chain| ch.difficulty_iter().map(|it| it.take(70).count() > 0).unwrap_or(false))));
+		if let Some(t) = hh {
+			let heights: Vec<u64> = (0..=t.height).rev().collect();
+			calls.push(("get_locator_hashes", Box::new(move |ch: &Chain| ch.get_locator_hashes(t, &heights).is_ok())));
+		}
+		for hgt in 0..=(n_trunk + b_len + 1) {
+			calls.push(("get_header_by_height", Box::new(move |ch: &Chain| ch.get_header_by_height(hgt).is_ok())));
+		}
+		for (name, call) in calls {
+			let (tx, rx) = mpsc::channel();
+			let c2 = chain.clone();
+			std::thread::spawn(move || {
+				init_thread(true);
+				let r = catch(move || call(&c2));
+				let _ = tx.send(r);
+			});
+			let mut got = rx.recv_timeout(Duration::from_secs(30));
+			if got.is_err() {
+				got = rx.recv_timeout(Duration::from_secs(30));
+			}
+			run.count("diverged_header_chain.other_read_calls", 1);
+			match got {
+				Err(_) => {
+					run.violation(
+						&format!("C17;clause=call_never_returns;fn={};state=header_chain_on_another_fork", name),
+						&format!("{} did not return within 60 s: body head at height {} on a fork with transactions, header head at height {} on a header-only fork forking at height {}", name, top, n_trunk + b_len, n_trunk),
+						json!({"variant": v, "seed": seed, "trunk": n_trunk, "body_fork_len": a_len, "header_fork_len": b_len}),
+					);
+					std::mem::forget(chain);
+					return;
+				}
+				Ok(Err(pn)) => run.violation(
+					&format!("C17;clause=panic;fn={};state=header_chain_on_another_fork", name),
+					&format!("{} panicked: {} at {}", name, pn.message, pn.location),
+					json!({"variant": v, "seed": seed, "trunk": n_trunk, "body_fork_len": a_len, "header_fork_len": b_len}),
+				),
+				Ok(Ok(true)) => run.count(&format!("diverged_header_chain.{}.ok", name), 1),
+				Ok(Ok(false)) => run.count(&format!("diverged_header_chain.{}.err", name), 1),
+			}
+		}
 		drop(chain);
 		let _ = std::fs::remove_dir_all(&d);
 	}
